@@ -11,8 +11,8 @@
 (*   pure      - the two consecutive observations of a register agree      *)
 (*   batch     - every observation (mean, variance, sem, three CIs, ...)   *)
 (*               equals the one-shot computation on the multiset:          *)
-(*               bit-for-bit on exactly summable data, within 2^-40        *)
-(*               relative where the transformed data round (geometric)     *)
+(*               identical renderings, or - the property says "up to       *)
+(*               rounding error" - values within 2^13 unit roundoffs       *)
 (***************************************************************************)
 EXTENDS Accum, Float, Json, IOUtils
 
@@ -26,12 +26,14 @@ EmptyHeap(n) == [r \in 1..n |-> EmptyReg]
 CodeEnc(codes, c) == (CHOOSE i \in DOMAIN codes : codes[i][1] = c)
 
 \* float-wise closeness of two recorded value lists (tolerance mode)
-NearList(xs, ys) ==
+\* (2^13 unit roundoffs relative: 2^-40 in f64, 2^-11 in f32; a miscounted or misplaced observation of the small samples
+\*  of these programs moves a statistic by a relative 1/n at least)
+NearList(xs, ys, ty) ==
     /\ Len(xs) = Len(ys)
     /\ \A i \in DOMAIN xs :
           IF xs[i].tag = "fin" /\ ys[i].tag = "fin"
-          THEN \/ DyNearRel(FDy(xs[i]), FDy(ys[i]), -40)
-               \/ DyNearAbs(FDy(xs[i]), FDy(ys[i]), Dy(BigOfInt(1), -60))
+          THEN \/ DyNearRel(FDy(xs[i]), FDy(ys[i]), IF ty = "f32" THEN -11 ELSE -40)
+               \/ DyNearAbs(FDy(xs[i]), FDy(ys[i]), Dy(BigOfInt(1), IF ty = "f32" THEN -30 ELSE -60))
           ELSE xs[i].tag = ys[i].tag
 
 RegOK(fl, reg, rv) == /\ BagOfRle(rv.bag) = reg.a
@@ -72,7 +74,8 @@ Next ==
                           [] OTHER -> rv.ca # Count(reg.a) \/ rv.cb # Count(reg.b)}
                 \cup {c \in {"C09.query_pure"} : \E i \in DOMAIN e.regs : e.regs[i].obs # e.regs[i].obs2}
                 \cup {c \in {"C09.batch"} : ~("nobatch" \in DOMAIN e /\ e.nobatch) /\ \E i \in DOMAIN e.regs :
-                        IF e.tol THEN ~NearList(e.regs[i].obsv, e.regs[i].batchv)
+                        \* identical renderings, or (the values are logged where they differ) equal up to rounding
+                        IF "obsv" \in DOMAIN e.regs[i] THEN ~NearList(e.regs[i].obsv, e.regs[i].batchv, e.ty)
                         ELSE e.regs[i].obs # e.regs[i].batch}
          rej == fl \in {"geo", "harm"} /\ so.tag = "err" /\ so.variant = "NonPositiveValue"
          f05 == {c \in {"C05.rejected_with_value"} : rej /\
